@@ -765,8 +765,62 @@ fn seed_rec(ep: &str, bytes: &[u8], dict: Value, toks_: Value, tag: &str) -> Val
     json!({"ep": ep, "bytes": bytes_to_json(bytes), "dict": dict, "toks": toks_, "tag": tag, "txt": txt})
 }
 
+/// A legal file lopdf itself cannot write: an object stream (FlateDecode) and a cross-reference stream compressed with
+/// FlateDecode + PNG predictor (all DecodeParms spelled out, so that each is a numeric site).
+fn made_compressed_file(rng: &mut Rng) -> Vec<u8> {
+    let mut f: Vec<u8> = b"%PDF-1.5\n%\xE2\xE3\xCF\xD3\n".to_vec();
+    let mut offs: Vec<(u32, usize)> = vec![];
+    let mut put = |f: &mut Vec<u8>, num: u32, body: &[u8]| {
+        offs.push((num, f.len()));
+        f.extend_from_slice(format!("{num} 0 obj\n").as_bytes());
+        f.extend_from_slice(body);
+        f.extend_from_slice(b"\nendobj\n");
+    };
+    put(&mut f, 1, b"<</Type/Catalog/Pages 2 0 R>>");
+    put(&mut f, 2, b"<</Type/Pages/Kids[3 0 R]/Count 1>>");
+    // objects 4 and 5 live in object stream 6
+    let members: [&[u8]; 2] = [b"<</Font<</F1 5 0 R>>>>", b"<</Type/Font/Subtype/Type1/BaseFont/Courier>>"];
+    let index = format!("4 0 5 {} ", members[0].len() + 1);
+    let mut os = index.clone().into_bytes();
+    os.extend_from_slice(members[0]);
+    os.push(b' ');
+    os.extend_from_slice(members[1]);
+    let osz = zlib(&os);
+    put(&mut f, 3, b"<</Type/Page/Parent 2 0 R/Resources 4 0 R/MediaBox[0 0 200 200]>>");
+    let mut body = format!("<</Type/ObjStm/N 2/First {}/Filter/FlateDecode/Length {}>>stream\n", index.len(), osz.len()).into_bytes();
+    body.extend_from_slice(&osz);
+    body.extend_from_slice(b"\nendstream");
+    put(&mut f, 6, &body);
+    // cross-reference stream 7: W [1 2 1], rows for objects 0..7
+    let xoff = f.len();
+    let mut rows: Vec<u8> = vec![];
+    let row = |t: u8, a: u16, b: u8| [t, (a >> 8) as u8, a as u8, b];
+    rows.extend_from_slice(&row(0, 0, 255));
+    for n in 1u32..=7 {
+        if n == 4 || n == 5 {
+            rows.extend_from_slice(&row(2, 6, (n - 4) as u8));
+        } else if n == 7 {
+            rows.extend_from_slice(&row(1, xoff as u16, 0));
+        } else {
+            let o = offs.iter().find(|(k, _)| *k == n).unwrap().1;
+            rows.extend_from_slice(&row(1, o as u16, 0));
+        }
+    }
+    let xz = zlib(&png_encode(&rows, 1, 4, rng));
+    f.extend_from_slice(
+        format!("7 0 obj\n<</Type/XRef/Size 8/W[1 2 1]/Index[0 8]/Root 1 0 R/Filter/FlateDecode/DecodeParms<</Predictor 12/Columns 4/Colors 1/BitsPerComponent 8>>/Length {}>>stream\n", xz.len())
+            .as_bytes(),
+    );
+    f.extend_from_slice(&xz);
+    f.extend_from_slice(format!("\nendstream\nendobj\nstartxref\n{xoff}\n%%EOF\n").as_bytes());
+    f
+}
+
 fn real_files(rng: &mut Rng, n: usize) -> Vec<(String, Vec<u8>)> {
     let mut v = vec![];
+    for _ in 0..2 {
+        v.push(("made:objstm+xref-flate-png".to_string(), made_compressed_file(rng)));
+    }
     let assets = std::env::var("VERIF_ASSETS").unwrap_or_else(|_| "/repo/assets".to_string());
     for a in ["example.pdf", "Incremental.pdf", "unicode.pdf"] {
         if let Ok(b) = std::fs::read(format!("{assets}/{a}")) {
